@@ -90,7 +90,11 @@ def quadratic_spline(
 
     unnorm_heights_exp = F.softplus(unnormalized_heights) + 1e-3
 
-    if unnorm_heights_exp.shape[-1] == num_bins - 1:
+    if unnorm_heights_exp.shape[-1] == 0:
+        # A single bin has no interior knots: equal boundary heights make the spline the
+        # identity on its interval.
+        unnorm_heights_exp = torch.ones_like(widths).expand(*widths.shape[:-1], 2)
+    elif unnorm_heights_exp.shape[-1] == num_bins - 1:
         # Set boundary heights s.t. after normalization they are exactly 1.
         first_widths = 0.5 * widths[..., 0]
         last_widths = 0.5 * widths[..., -1]
